@@ -98,11 +98,16 @@ def _json_default(o):
     return str(o)
 
 
+FRAME = 4096   # <= PIPE_BUF: a frame is written atomically, so a read of one frame never returns a part of it
+
+
 def _read_exact(fd, n):
+    """frame by frame: the number and the sizes of the pieces - hence the allocations made while
+    reading - depend on n only, not on how the writer and the reader happen to interleave"""
     chunks = []
     got = 0
     while got < n:
-        b = os.read(fd, n - got)
+        b = os.read(fd, min(FRAME, n - got))
         if not b:
             raise EOFError("pipe closed")
         chunks.append(b)
@@ -209,8 +214,10 @@ class Zygote:
         os.write(self.ctl_w, b"g")
         pid = st.unpack("q", _read_exact(self.st_r, 8))[0]
         # the child is now blocked reading its job
-        msg = st.pack("I", len(payload)) + payload
-        view = memoryview(msg)
+        # the length, then the payload in frames of FRAME bytes, one write each (see _read_exact)
+        frames = [st.pack("I", len(payload))] + [payload[i:i + FRAME] for i in range(0, len(payload), FRAME)]
+        frames.reverse()
+        view = frames   # truthy while something is left to send
         deadline = time.monotonic() + timeout
         status = None
         buf = b""
@@ -229,8 +236,12 @@ class Zygote:
             r, w, _ = select.select([self.res_r, self.st_r], wl, [], 1.0 if not killed else 5.0)
             if w:
                 try:
-                    k = os.write(self.job_w, view[: 1 << 16])
-                    view = view[k:]
+                    fr = frames[-1]
+                    k = os.write(self.job_w, fr)
+                    if k == len(fr):
+                        frames.pop()
+                    else:  # pragma: no cover - a pipe takes a frame of <= PIPE_BUF bytes whole
+                        frames[-1] = fr[k:]
                 except BlockingIOError:
                     pass
             if self.res_r in r:
